@@ -1,6 +1,7 @@
 //! xsg-sim — deterministic simulation with fault injection for xml_schema_generator.
 //! See /verif/DESIGN.md. Commands: check, worker, shrink, replay, selfcheck, show.
 
+mod cli;
 mod dom;
 mod driver;
 mod entropy;
